@@ -78,6 +78,7 @@ type vnet struct {
 	lostEntry string // a relay dropped a verified entry from the list it forwards
 	fetches   []fetchReq // parent-fetch requests the nodes sent to their peers
 	serveFetch bool      // peers answer parent-fetch requests with their real GetVertex handler
+	holdFetch  chan struct{} // when set, a peer answers a parent-fetch request only once this channel is closed (a slow peer)
 	sendsMissing int     // how often the sends the harness expected (from what it can verify itself) never came
 	silent bool                      // warm-up item: no trace lines
 	old    map[int][]*pb.Gossiper    // genuine entries honest nodes signed for the warm-up item, by named node
@@ -113,7 +114,11 @@ func (s *netStub) GetVertex(ctx context.Context, in *pb.SignedHash, _ ...grpc.Ca
 	s.net.mux.Lock()
 	s.net.fetches = append(s.net.fetches, fetchReq{src: s.src, dst: s.dst, req: proto.Clone(in).(*pb.SignedHash)})
 	serve := s.net.serveFetch
+	hold := s.net.holdFetch
 	s.net.mux.Unlock()
+	if hold != nil {
+		<-hold
+	}
 	if serve && s.net.honest[s.dst] {
 		return s.net.gsp[s.dst].Server().GetVertex(ctx, in) // the peer's real handler answers
 	}
@@ -882,7 +887,7 @@ func init() {
 			var prev []*pb.Gossiper // genuine entries signed for the previous round's item
 			forms := []string{"right-digest-garbage-sig", "right-digest-adversary-sig", "no-digest-adversary-sig", "digest3-garbage-sig", "digest31-no-sig",
 				"digest33-adversary-sig", "digest64-garbage-sig", "zero-digest-no-sig", "genuine-entries-of-previous-item",
-				"behind-20-failing-entries"}
+				"behind-20-failing-entries", "malformed-then-adversary-valid"}
 			names := [][]int{{2}, {3}, {2, 3}}
 			failed := false
 			for fi := 0; fi < len(forms) && !failed; fi++ {
@@ -916,6 +921,14 @@ func init() {
 							e.Digest, e.Signature = dd[:], fill(c, 64, false)
 						case "right-digest-adversary-sig":
 							e.Digest, e.Signature = d[:], sg
+						case "malformed-then-adversary-valid":
+							// the entry naming the victim has no digest at all; the adversary's own, perfectly valid
+							// entry follows it (appended below): the valid one must not be credited to the other
+							e.Digest, e.Signature = nil, nil
+							ad, as := recSigner{adv}.Sign(gossip.VerifGossiperMessage(adv.Address(), v.item))
+							own := &pb.Gossiper{Address: adv.Address(), Digest: ad[:], Signature: as}
+							gs = append(gs, e, own)
+							e = nil
 						case "behind-20-failing-entries":
 							// the forged entry sits at the end of a long list of well-formed entries that fail as
 							// well (throw-away names, right digest length): its position must not matter
@@ -1399,6 +1412,85 @@ func init() {
 			if failedAt >= 0 {
 				c.Violate("C13", "parent-fetch-stops-after-many-half-known-orphans", fmt.Sprintf("orphan number %d with one known and one unknown parent: %s", failedAt+1, reason),
 					map[string]interface{}{"section": "gossip", "scenario": "half-known-orphans", "orphan": failedAt + 1})
+			}
+			v.close()
+		}
+		// ---- a burst of orphans against a slow peer: 250 parent fetches are in flight (the node's own limit), 250 more
+		// orphans arrive and their fetches are turned away; once the peer has answered, the node fetches missing
+		// parents again as before
+		{
+			v := newVnet(c, 2, [][]int{{1}, {0}}, []bool{true, true}, false)
+			v.silent = true
+			v.serveFetch = true
+			hold := make(chan struct{})
+			v.mux.Lock()
+			v.holdFetch = hold
+			v.mux.Unlock()
+			gen := genesisOf(v.nodes[0].ab)
+			rich, other := v.w.wallets[0], v.w.wallets[1]
+			sealer := v.nodes[0].w
+			mk := func(i int, tag byte) (accountant.Vertex, accountant.Vertex, bool) {
+				pt, _ := transaction.New("p", spice.Melange{}, []byte{byte(i), byte(i >> 8), tag, 'p'}, other.Address(), recSigner{rich})
+				pv, e1 := accountant.NewVertex(pt, gen.Hash, gen.Hash, 1, recSigner{sealer})
+				ct, _ := transaction.New("c", spice.Melange{}, []byte{byte(i), byte(i >> 8), tag, 'c'}, other.Address(), recSigner{rich})
+				cv, e2 := accountant.NewVertex(ct, pv.Hash, pv.Hash, 2, recSigner{sealer})
+				if e1 != nil || e2 != nil {
+					return pv, cv, false
+				}
+				pc := pv
+				return pv, cv, v.nodes[0].ab.AddLeaf(context.Background(), &pc) == nil
+			}
+			fetchCount := func() int { v.mux.Lock(); defer v.mux.Unlock(); return len(v.fetches) }
+			ok := true
+			for i := 0; i < 250 && ok; i++ {
+				_, cv, good := mk(i, 1)
+				ok = good
+				v.gsp[1].Server().GossipVrx(context.Background(), &pb.VrxMsgGossip{Vertex: gossip.VerifMapVertexToProto(&cv)})
+			}
+			for t := 0; ok && t < 3000 && fetchCount() < 250; t++ {
+				time.Sleep(time.Millisecond)
+			}
+			inFlight := fetchCount()
+			for i := 0; i < 249 && ok; i++ { // turned away: the limit is reached (249 orphans: the buffer holds 500)
+				// each of these misses two different parents: two fetches turned away per orphan
+				pa, _, g1 := mk(i, 2)
+				pb2, _, g2 := mk(i, 4)
+				ct, _ := transaction.New("c2", spice.Melange{}, []byte{byte(i), byte(i >> 8), 5, 'c'}, other.Address(), recSigner{rich})
+				cv, e := accountant.NewVertex(ct, pa.Hash, pb2.Hash, 2, recSigner{sealer})
+				ok = g1 && g2 && e == nil
+				v.gsp[1].Server().GossipVrx(context.Background(), &pb.VrxMsgGossip{Vertex: gossip.VerifMapVertexToProto(&cv)})
+			}
+			time.Sleep(50 * time.Millisecond)
+			v.mux.Lock()
+			v.holdFetch = nil
+			v.mux.Unlock()
+			close(hold)
+			time.Sleep(300 * time.Millisecond) // the held fetches complete
+			// drain the orphan buffer (children whose parents arrived are admitted, the others use up their retries)
+			for k := 0; k < 16000; k++ {
+				if _, had, _ := v.nodes[1].ab.VerifRetryParked(context.Background()); !had {
+					break
+				}
+			}
+			pv, cv, good := mk(999, 3)
+			c.Rep.Evals++
+			c.Count("fetch-burst")
+			c.Distinct("fetch-burst")
+			if ok && good && inFlight >= 250 {
+				v.gsp[1].Server().GossipVrx(context.Background(), &pb.VrxMsgGossip{Vertex: gossip.VerifMapVertexToProto(&cv)})
+				got := false
+				for t := 0; t < 1500 && !got; t++ {
+					if _, err := v.nodes[1].ab.ReadVertex(context.Background(), pv.Hash); err == nil {
+						got = true
+					}
+					time.Sleep(2 * time.Millisecond)
+				}
+				if !got {
+					c.Violate("C13", "parent-fetch-stops-after-a-burst", "250 parent fetches were in flight against a slow peer and 498 more were turned away; after the peer had answered them all, a new orphan's missing parent was not fetched within 3 s",
+						map[string]interface{}{"section": "gossip", "scenario": "fetch-burst"})
+				}
+			} else {
+				c.Count("fetch-burst.not-reached")
 			}
 			v.close()
 		}
